@@ -36,6 +36,9 @@ RULE = ("sched: structured grid then random over (algorithm, K, m, delta, round,
         "at least one active and one inactive design or a non-identity covariance. "
         "sum: (algorithm/region type, K in 1..1e4, m in 2..6, delta in 1e-6..0.999); non-trivial = partial sum > 0; "
         "distinct by (algorithm, K, m, delta). "
+        "ctor: (algorithm through its real constructor, K, m, requested delta incl. 1e-12…1-1e-9, round, noise_var, "
+        "contraction); always non-trivial. history: (K, m, design, number of samples 4097…16384, batch pattern); "
+        "always non-trivial. "
         "monitor: (PaVeBa | Auer, dataset values, cone, epsilon, delta, noise_var, noise seed, round budget); "
         "non-trivial = PaVeBa: at least one round refreshed a design that is already in P (U non-empty); "
         "Auer: at least 2 rounds; distinct by the whole case")
@@ -156,7 +159,8 @@ def close(a, b, rtol):
 # ------------------------------------------------------------------------------------- generation
 K_GRID = [1, 2, 3, 5, 10, 32, 100, 1000, 10000, 123457]
 M_GRID = [1, 2, 3, 4, 5, 6, 8]
-D_GRID = [1e-6, 1e-3, 0.01, 0.05, 0.1, 0.25, 0.5, 0.9, 0.999]
+D_EXTREME = [1e-12, 1e-9, 1e-7, 1 - 1e-7, 1 - 1e-9]
+D_GRID = [1e-6, 1e-3, 0.01, 0.05, 0.1, 0.25, 0.5, 0.9, 0.999] + D_EXTREME
 T_GRID = [1, 2, 3, 7, 10, 100, 10 ** 4, 10 ** 6]
 NV_GRID = [1e-5, 0.01, 0.1, 1.0, 4.0]
 C_GRID = [1.0, 9.0, 32.0, 64.0, 2.5]
